@@ -113,6 +113,7 @@ theorem getProbes_ok (f : Filter) (h : Hash) (hb : f.bits ≠ []) :
 /-- invariant carried through `from_hashes` -/
 structure FHInv (n p len : Nat) (done : List Hash) (f : Filter) : Prop where
   entries : f.numEntries = n
+  bpe : f.bitsPerEntry = Consts.BITS_PER_ENTRY
   probes : f.numProbes = p
   len : f.bits.length = len
   members : ∀ h ∈ done, ∀ ps, getProbes f h = .ok ps → ∀ q ∈ ps, BitSet f.bits q
@@ -126,7 +127,7 @@ theorem addHash_inv {n p len : Nat} {done : List Hash} {f : Filter} (h : Hash)
   refine ⟨{ f with bits := ps.foldl setBit f.bits }, by simp [addHash, hps], ?_⟩
   have hcongr : ∀ h', getProbes { f with bits := ps.foldl setBit f.bits } h' = getProbes f h' :=
     fun h' => getProbes_congr _ _ h' (by simp [foldl_setBit_length]) rfl
-  refine ⟨inv.entries, inv.probes, by simp [foldl_setBit_length, inv.len], ?_⟩
+  refine ⟨inv.entries, inv.bpe, inv.probes, by simp [foldl_setBit_length, inv.len], ?_⟩
   intro h' hmem ps' hps' q hq
   rw [hcongr] at hps'
   rcases List.mem_append.mp hmem with hm | hm
@@ -157,7 +158,7 @@ theorem fromHashes_inv (hs : List Hash) (hn : 0 < hs.length) :
   have inv : FHInv hs.length Consts.NUM_PROBES (bitsCapacity hs.length Consts.BITS_PER_ENTRY) []
       ⟨hs.length, Consts.BITS_PER_ENTRY, Consts.NUM_PROBES,
         List.replicate (bitsCapacity hs.length Consts.BITS_PER_ENTRY) 0⟩ :=
-    ⟨rfl, rfl, by simp, by intro h' hm; cases hm⟩
+    ⟨rfl, rfl, rfl, by simp, by intro h' hm; cases hm⟩
   obtain ⟨f', hf, inv'⟩ := foldl_addHash (cap_pos _ hn) hs [] _ inv
   exact ⟨f', hf, by simpa using inv'⟩
 
